@@ -144,6 +144,7 @@ int _GD_CodeOffsets(DIRFILE *D, int index, const char *code, unsigned flags,
     size_t offset[GD_N_CODEOFFSETS])
 {
   int ret = 0, repr;
+  size_t skip;
   const char *dot = NULL, *slash = NULL;
   const struct gd_fragment_t *F, *P;
 
@@ -169,9 +170,10 @@ int _GD_CodeOffsets(DIRFILE *D, int index, const char *code, unsigned flags,
       offset[1]++; /* Again, for the trailing '.' */
   }
 
-  /* Find the last dot and the last slash */
-  repr = _GD_SlashDot(code + offset[1], offset[9] - offset[1], flags, &dot,
-      &slash);
+  /* Find the last dot and the last slash.  (A code shorter than F's namespace
+   * isn't in that namespace: there's nothing to skip then.) */
+  skip = (offset[1] <= offset[9]) ? offset[1] : 0;
+  repr = _GD_SlashDot(code + skip, offset[9] - skip, flags, &dot, &slash);
 
   if (repr)
     offset[8] = offset[9] - 2;
